@@ -172,6 +172,19 @@ static void computeRowsCase(Rng &rng, CaseResult &r) {
     c.setCellWidth(w); c.setCellHeight(h); c.setCellX(x); c.setCellY(y); c.setCellOrientation(oo); c.setCellIsObstruction(ob);
     r.count("second_computation_after_changes");
   }
+  if (rng.chance(0.2)) {
+    // the object that is judged held another design before: rows were computed on it, then this circuit was assigned to it
+    GenOpts o2 = makeProfile(rng, "manyfixed");
+    Circuit holder = genCircuit(rng, o2);
+    (void)holder.computeRows();
+    holder = c;
+    c = holder;
+    std::vector<Row> viaHolder = holder.computeRows(extra), direct = c.computeRows(extra);
+    bool same = viaHolder.size() == direct.size();
+    for (size_t k = 0; same && k < direct.size(); ++k) same = viaHolder[k].minX == direct[k].minX && viaHolder[k].maxX == direct[k].maxX && viaHolder[k].minY == direct[k].minY && viaHolder[k].maxY == direct[k].maxY;
+    if (!same) r.fail("C15:free-space-differs:computeRows", "an object that held another design before this one was assigned to it computes other rows than a copy of the design");
+    r.count("computed_on_a_reassigned_object");
+  }
   std::vector<Row> got = c.computeRows(extra);
   // oracle obstacles: fixed AND obstruction cells (placed rectangle from own transform) + extra
   std::vector<Rectangle> obs = extra;
